@@ -12,12 +12,12 @@ CONFIGS_THOROUGH = ["A", "B", "C", "R", "X"]
 
 EXPLANATION = (
     "Decided (static, MIR): C13.1 from the `fork() == 0` edge of do_spawn no `return` is reachable - every child path ends in exit (after reporting) or exec; "
-    "C13.2 the child's steps run in the order stdio dup2 -> cwd -> uid -> gid -> pgroup -> pre-exec closures -> execve, each on its configured value, and execve receives bin/argv/envp unchanged; "
+    "C13.2 the child's steps run in the order stdio dup2 -> cwd -> uid -> gid -> pgroup -> pre-exec closures -> execve, each on its configured value and whenever that value is configured (no path from the option's Some edge goes round the step), and execve receives bin/argv/envp unchanged; "
     "C13.3 the error channel agrees end to end: the child writes errno.to_be_bytes() ++ FOOTER to the write end, the parent's 8-byte arm decodes with from_be_bytes and compares the same FOOTER constant, "
     "the pipe is O_CLOEXEC so EOF means exec succeeded, and execve's error always carries a code (C09.3: positive); "
     "C13.4 the parent closes the write end before its first read (else a successful exec never produces EOF) and retries the read only on EINTR; "
     "C13.5 every Command builder method that touches argv/envp leaves the vector NULL-terminated with the new pointer in the slot that held the terminator; "
-    "C13.6 Command::env records the variable on every feasible path (enum-variant refinement of self.env), in both feature sets; "
+    "C13.6 Command::spawn/exec hand each configured attribute to the child as the builder's own field read in place and modify no builder field (a Command can be spawned again), and Command::env records the variable on every feasible path (enum-variant refinement of self.env), in both feature sets; "
     "C13.7 Child::wait/try_wait wait on the child's own pid, WNOHANG only in try_wait, and return the cached status afterwards. "
     "NOT decided: what the exec'd program observes (kernel), process-tree observation, uid/gid semantics.")
 ASSUMPTIONS = ["fork returns 0 exactly in the child", "a diverging call (-> !) never returns"]
@@ -146,6 +146,26 @@ def run_one(ck, prog):
                 ok = ai < len(args) and from_param(c2, args[ai], pname, ob)
                 ck.ob("C13.2", f"arg|{name.split('::')[-1]}#{ai}={pname}", ok, fn=c2.path, site=c2.site(bb),
                       detail=f"`{name.split('::')[-1]}` argument {ai} must be the configured `{pname}`, found {show(args[ai]) if ai < len(args) else None}")
+    # a configured attribute is applied WHENEVER it is configured: from the `Some` edge of the option no return is reachable
+    # that goes round the step (a value-dependent skip - "0 means nothing to do" - silently drops the configuration)
+    for name, lst in want.items():
+        if name.endswith("execve"):
+            continue
+        for (c2, bb, ob) in steps[name]:
+            for ai, pname in lst:
+                some_edges = []
+                for sb in c2.cfg.live_blocks():
+                    if c2.cfg.term(sb)["k"] != "switch":
+                        continue
+                    for e in c2.cfg.succ[sb]:
+                        for f in c2.edge_facts(e):
+                            if f[0] == "variant" and f[2] == "Some":
+                                ps = {x[2] for x in walk_deep(f[1], c2.prov) if x[0] == "param"}
+                                if ps == {pname}:
+                                    some_edges.append(e)
+                skipped = [e for e in some_edges if any(rb in c2.cfg.reachable_from(e.dst, avoid={bb}) for rb in c2.cfg.return_blocks()) and e.dst != bb]
+                ck.ob("C13.2", f"applied-whenever-configured|{pname}", bool(some_edges) and not skipped, fn=c2.path, site=c2.site(bb),
+                      detail=f"with `{pname}` configured (Some) the child can finish its preparation without calling {name.split('::')[-1]}: the step must not depend on the configured value")
     targets = []
     for (c2, bb, ob) in steps["rusl::unistd::dup::dup2"]:
         args = c2.args(bb)
@@ -194,30 +214,66 @@ def run_one(ck, prog):
         uses_be = mentions(buf, ctx.prov, lambda x: x[0] == "call" and (x[1] or "").endswith("::to_be_bytes"))
         from_exec = mentions(buf, ctx.prov, lambda x: x[0] == "call" and (x[1] or "").endswith("execve::execve"))
         footers = [x for x in walk_deep(buf, ctx.prov) if x[0] == "const" and x[2] and x[2].endswith("CLOEXEC_MSG_FOOTER")]
-        ck.ob("C13.3", "child-encodes-errno-be", uses_be and from_exec, fn=DO_SPAWN, site=ctx.site(writes[0]),
-              detail="the 8 status bytes must start with the exec error's errno.to_be_bytes()")
-        ck.ob("C13.3", "child-appends-footer", bool(footers), fn=DO_SPAWN, site=ctx.site(writes[0]), detail="the status bytes must end with CLOEXEC_MSG_FOOTER")
-        # layout: an 8-array [code[0..4], FOOTER[0..4]]
+        # layout of the 8 status bytes, from either spelling: an array literal [code[0], .., FOOTER[3]], or a buffer filled by
+        # `bytes[a..b].copy_from_slice(src)` pieces.  layout[i] = ("code", k) | ("footer", k, byte value)
+        def range_of(e, n):
+            for z in walk_deep(e, ctx.prov):
+                if z[0] == "agg" and str(z[1]).startswith("core::ops::range::") and z[2] in ("RangeTo", "RangeFrom", "Range", "RangeFull", "RangeToInclusive", "RangeInclusive"):
+                    v = [const_value(x) for x in z[3]]
+                    if None in v:
+                        return None
+                    return {"RangeTo": lambda: (0, v[0]), "RangeFrom": lambda: (v[0], n), "Range": lambda: (v[0], v[1]), "RangeFull": lambda: (0, n),
+                            "RangeToInclusive": lambda: (0, v[0] + 1), "RangeInclusive": lambda: (v[0], v[1] + 1)}[z[2]]()
+            return None
+
+        def source_kind(e):
+            if mentions(e, ctx.prov, lambda x: x[0] == "call" and (x[1] or "").endswith("::to_be_bytes")):
+                return ("code", None)
+            for y in walk_deep(e, ctx.prov):
+                if y[0] == "const" and y[2] and y[2].endswith("CLOEXEC_MSG_FOOTER") and len(y) > 4:
+                    return ("footer", list(y[4]))
+            return (None, None)
+        layout = [None] * 8
         for x in walk_deep(buf, ctx.prov):
             if x[0] == "agg" and x[1] == "array" and len(x[3]) == 8:
                 arr = x
-        ck.ob("C13.3", "status-is-8-bytes", arr is not None, fn=DO_SPAWN, detail="the status message must be an 8-byte array")
         if arr is not None:
-            idx_ok = True
             for i, el in enumerate(arr[3]):
                 e2 = strip_casts(el)
-                want_i = i % 4
-                got = None
-                if isinstance(e2, tuple) and e2[0] == "index":
-                    got = const_value(e2[2])
-                elif isinstance(e2, tuple) and e2[0] == "cindex":
-                    got = e2[2]
-                if got != want_i:
-                    idx_ok = False
-                is_footer = any(y[0] == "const" and y[2] and y[2].endswith("CLOEXEC_MSG_FOOTER") for y in walk_deep(el, ctx.prov))
-                if (i >= 4) != is_footer:
-                    idx_ok = False
-            ck.ob("C13.3", "status-layout", idx_ok, fn=DO_SPAWN, site=ctx.site(writes[0]), detail="status bytes must be code[0..4] followed by FOOTER[0..4] in order")
+                k = const_value(e2[2]) if isinstance(e2, tuple) and e2[0] == "index" else e2[2] if isinstance(e2, tuple) and e2[0] == "cindex" else None
+                kind, val = source_kind(el)
+                if kind == "code" and k is not None:
+                    layout[i] = ("code", k)
+                elif kind == "footer" and k is not None and k < len(val):
+                    layout[i] = ("footer", k, val[k])
+        else:
+            places = [x for x in walk_deep(buf, ctx.prov) if x[0] == "place" and str(x[3]).replace(" ", "") == "[u8;8]"]
+            if len(places) == 1:
+                arr = places[0]
+                for cb, t in cfg.calls(lambda t: (t.get("callee") or "").endswith("copy_from_slice")):
+                    if cb not in region or not cfg.dominates(cb, writes[0]):
+                        continue
+                    a = ctx.args(cb)
+                    im = [z for z in walk_deep(a[0], ctx.prov) if z[0] == "call" and (z[1] or "").endswith("IndexMut::index_mut")]
+                    if len(im) != 1 or not mentions(im[0][2][0], ctx.prov, lambda z: z[0] == "place" and z[1] == arr[1]):
+                        continue
+                    rg = range_of(im[0][2][1], 8)
+                    kind, val = source_kind(a[1])
+                    if rg is None or kind is None or rg[1] - rg[0] != 4:
+                        continue
+                    for k, i in enumerate(range(rg[0], rg[1])):
+                        if 0 <= i < 8:
+                            layout[i] = ("code", k) if kind == "code" else ("footer", k, val[k] if k < len(val) else None)
+        pieces = [a2 for cb2, t2 in cfg.calls(lambda t2: (t2.get("callee") or "").endswith("copy_from_slice")) if cb2 in region and cfg.dominates(cb2, writes[0]) for a2 in ctx.args(cb2)[1:]]
+        uses_be = uses_be or (any(x is not None and x[0] == "code" for x in layout) and any(mentions(a2, ctx.prov, lambda x: x[0] == "call" and (x[1] or "").endswith("::to_be_bytes")) for a2 in pieces))
+        from_exec = from_exec or any(mentions(a2, ctx.prov, lambda x: x[0] == "call" and (x[1] or "").endswith("execve::execve")) for a2 in pieces)
+        ck.ob("C13.3", "child-encodes-errno-be", uses_be and from_exec and any(x is not None and x[0] == "code" for x in layout), fn=DO_SPAWN, site=ctx.site(writes[0]),
+              detail="the 8 status bytes must start with the exec error's errno.to_be_bytes()")
+        ck.ob("C13.3", "child-appends-footer", any(x is not None and x[0] == "footer" for x in layout), fn=DO_SPAWN, site=ctx.site(writes[0]), detail="the status bytes must end with CLOEXEC_MSG_FOOTER")
+        ck.ob("C13.3", "status-is-8-bytes", arr is not None, fn=DO_SPAWN, detail="the status message must be an 8-byte array")
+        if arr is not None:
+            idx_ok = all(layout[i] is not None and layout[i][0] == ("code" if i < 4 else "footer") and layout[i][1] == i % 4 for i in range(8))
+            ck.ob("C13.3", "status-layout", idx_ok, fn=DO_SPAWN, site=ctx.site(writes[0]), detail=f"status bytes must be code[0..4] followed by FOOTER[0..4] in order; found {layout}")
     # parent side
     reads = [bb for bb, t in cfg.calls(lambda t: (t.get("callee") or "").endswith("unistd::read::read")) if bb not in region]
     ck.ob("C13.3", "parent-reads-status", len(reads) == 1, fn=DO_SPAWN, detail=f"read calls in the parent: {len(reads)}")
@@ -227,34 +283,43 @@ def run_one(ck, prog):
               detail=f"the parent reads {show(args[0])}; must be the status pipe's read end")
         be = [bb for bb, t in cfg.calls(lambda t: (t.get("callee") or "").endswith("::from_be_bytes")) if bb not in region]
         ck.ob("C13.3", "parent-decodes-errno-be", len(be) == 1, fn=DO_SPAWN, detail="the parent must decode the errno with from_be_bytes (the child encodes with to_be_bytes)")
-        split = [bb for bb, t in cfg.calls(lambda t: (t.get("callee") or "").endswith("::split_at")) if bb not in region]
-        ok_split = bool(split) and const_value(ctx.args(split[0])[1]) == 4
-        ck.ob("C13.3", "parent-splits-at-4", ok_split, fn=DO_SPAWN, detail="the parent must split the 8 status bytes at 4 (errno | footer)")
-        # footer agreement by VALUE: the four bytes the child appends == the four bytes the parent compares with
-        child_footer = None
-        if writes and arr is not None:
-            vals = []
-            for el in arr[3][4:]:
-                e2 = strip_casts(el)
-                b = None
-                if isinstance(e2, tuple) and e2[0] in ("index", "cindex"):
-                    base = strip_casts(e2[1])
-                    i = const_value(e2[2]) if e2[0] == "index" else e2[2]
-                    if isinstance(base, tuple) and base[0] == "const" and len(base) > 4 and i is not None and i < len(base[4]):
-                        b = base[4][i]
-                vals.append(b)
-            child_footer = vals
-        parent_footer = None
-        for bb, t in cfg.calls(lambda t: (t.get("callee") or "").endswith(("PartialEq::ne", "PartialEq::eq"))):
+        # which bytes the parent decodes and which it validates, from either spelling (split_at(4) halves, or bytes[0..4] elements
+        # and &bytes[4..])
+        rbuf = [x for x in walk_deep(args[1], ctx.prov) if x[0] == "place" and str(x[3]).replace(" ", "") == "[u8;8]"]
+
+        def byte_range(e):
+            """the range of the read buffer an expression views"""
+            for z in walk_deep(e, ctx.prov):
+                if z[0] == "call" and (z[1] or "").endswith("::split_at") and const_value(z[2][1]) is not None:
+                    return ("split", const_value(z[2][1]))
+                if z[0] == "call" and (z[1] or "").endswith("Index::index") and rbuf and mentions(z[2][0], ctx.prov, lambda w: w[0] == "place" and w[1] == rbuf[0][1]):
+                    return range_of(z[2][1], 8)
+            ee = strip_casts(e)
+            if isinstance(ee, tuple) and ee[0] == "agg" and ee[1] == "array":
+                idx = []
+                for el in ee[3]:
+                    e3 = strip_casts(el)
+                    if isinstance(e3, tuple) and e3[0] in ("index", "cindex") and rbuf and mentions(e3[1], ctx.prov, lambda w: w[0] == "place" and w[1] == rbuf[0][1]):
+                        idx.append(const_value(e3[2]) if e3[0] == "index" else e3[2])
+                    else:
+                        return None
+                if idx and idx == list(range(idx[0], idx[0] + len(idx))):
+                    return (idx[0], idx[0] + len(idx))
+            return None
+        dec = byte_range(ctx.args(be[0])[0]) if len(be) == 1 else None
+        child_footer = [x[2] if x is not None and x[0] == "footer" else None for x in layout[4:]] if writes and arr is not None else None
+        parent_footer, cmp_range = None, None
+        for bb, t in cfg.calls(lambda t: (t.get("callee") or "").endswith(("PartialEq::ne", "PartialEq::eq", "PartialEq>::ne", "PartialEq>::eq"))):
             if bb in region:
                 continue
             a = ctx.args(bb)
-            if not any(mentions(x, ctx.prov, lambda y: y[0] == "call" and (y[1] or "").endswith("::split_at")) for x in a):
-                continue
-            for x in a:
-                for y in walk_deep(x, ctx.prov):
-                    if y[0] == "const" and len(y) > 4:
-                        parent_footer = list(y[4][:4])
+            consts = [list(y[4][:4]) for x in a for y in walk_deep(x, ctx.prov) if y[0] == "const" and len(y) > 4 and y[4] is not None and len(y[4]) == 4]   # compared by VALUE: the named constant or an equal literal
+            rgs = [byte_range(x) for x in a]
+            rgs = [r for r in rgs if r is not None]
+            if consts and rgs:
+                parent_footer, cmp_range = consts[0], rgs[0]
+        ok_split = (dec == ("split", 4) and cmp_range == ("split", 4)) or (dec == (0, 4) and cmp_range == (4, 8))
+        ck.ob("C13.3", "parent-splits-at-4", ok_split, fn=DO_SPAWN, detail=f"the parent must split the 8 status bytes at 4 (errno | footer); it decodes {dec} and validates {cmp_range}")
         ck.ob("C13.3", "parent-compares-same-footer", child_footer is not None and None not in child_footer and child_footer == parent_footer, fn=DO_SPAWN,
               detail=f"footer bytes written by the child {child_footer} must equal the bytes the parent validates against {parent_footer}")
         # C13.4: write end closed before the first read
@@ -340,6 +405,34 @@ def run_one(ck, prog):
 
 def check_builder(ck, prog):
     NULLP = lambda e: mentions(e, None, lambda x: False)  # noqa: E731
+    # C13.6: spawning does not consume the configuration - every configured attribute handed to do_spawn is the builder's own
+    # field of that name, read in place (a Command can be spawned again and must then run the same configuration)
+    ds = prog.fns.get(DO_SPAWN)
+    pnames = {x["arg"]: x["n"] for x in (ds or {}).get("names", []) if x.get("arg")}
+    for meth in ("spawn", "exec"):
+        fn = prog.fns.get(CMD + meth)
+        if fn is None:
+            continue
+        ctx = prog.ctx(fn)
+        for bb, t in ctx.cfg.calls(lambda t: t.get("callee") in (DO_SPAWN, "tiny_std::process::do_exec")):
+            callee = prog.fns.get(t["callee"])
+            pn = {x["arg"]: x["n"] for x in (callee or {}).get("names", []) if x.get("arg")}
+            for ai, a in enumerate(ctx.args(bb)):
+                name = pn.get(ai + 1)
+                if name not in ("stdin", "stdout", "stderr", "cwd", "uid", "gid", "pgroup"):
+                    continue
+                x = strip_casts(a)
+                direct = isinstance(x, tuple) and x[0] == "field" and x[2] == name and canon(x[1]) == "*p1"
+                ck.ob("C13.6", f"{meth}|configuration-read-in-place|{name}", direct, fn=fn["path"], site=ctx.site(bb),
+                      detail=f"Command::{meth} hands `{show(a)}` to the child as `{name}`: it must be the builder's own `self.{name}` (copied), not a value taken out of or computed from it - otherwise a second spawn of the same Command runs a different configuration")
+        muts = []
+        for b in fn["blocks"]:
+            if b.get("cleanup") or b["id"] not in ctx.cfg.live_blocks():
+                continue
+            for st in b["stmts"]:
+                if st["k"] == "assign" and st["dst"].get("p") and st["dst"]["l"] == 1 and st["dst"]["p"][0]["k"] == "deref":
+                    muts.append(st["dst"]["p"][1].get("n") if len(st["dst"]["p"]) > 1 else "?")
+        ck.ob("C13.6", f"{meth}|builder-not-modified", not muts, fn=fn["path"], detail=f"Command::{meth} assigns to builder fields {muts}")
     for meth, vec_field, cnt_field in (("arg", "argv", "args"), ("env", "envp", "vars")):
         fn = prog.fns.get(CMD + meth)
         if not ck.anchor("C13.5", f"Command::{meth}", fn):
